@@ -9,9 +9,9 @@ import (
 // Normalisation helpers shared by the shape extractors, so that behaviour-preserving edits (renamed
 // locals / receivers / parameters, a trivial helper extracted, `x += 1` for `x++`) do not change the facts.
 
-// renameIdents renames identifiers (not the field/method names of selector expressions, not struct-literal
+// renameIdentsQ renames identifiers (not the field/method names of selector expressions, not struct-literal
 // keys) according to m, in place.
-func renameIdents(n ast.Node, m map[string]string) {
+func renameIdentsQ(n ast.Node, m map[string]string) {
 	skip := map[*ast.Ident]bool{}
 	ast.Inspect(n, func(x ast.Node) bool {
 		switch v := x.(type) {
